@@ -306,6 +306,39 @@ func checkC10(r *Run) {
 				}
 				at = sites[0]
 			}
+			// the write must belong to the invocation that spawns: a function that starts its goroutine only the first time
+			// it is called (SetClient: `if c.chTask != nil { return }`) but writes the field every time races with the
+			// goroutine from the second call on. So: no way from the write to a return that does not pass a spawn.
+			isGo := func(x ssa.Instruction) bool {
+				for _, g := range gos {
+					if x == g {
+						return true
+					}
+				}
+				return false
+			}
+			if len(gos) > 0 && !isGo(at) {
+				isRet := func(x ssa.Instruction) bool { _, r := x.(*ssa.Return); return r }
+				skips := false
+				if blk := at.Block(); blk != nil && len(blk.Preds) == 1 {
+					// whole paths through the edge that leads to the write (a flag tested before the write and again before
+					// the early return is known on them)
+					pr := blk.Preds[0]
+					for k, sc := range pr.Succs {
+						if sc == blk {
+							e := ifEdge{pr, k}
+							if _, found := CanReach(sp, nil, isRet, PathQ{BlockInstr: isGo, MustEdge: &e}); found {
+								skips = true
+							}
+						}
+					}
+				} else {
+					_, skips = CanReach(sp, at, isRet, PathQ{BlockInstr: isGo})
+				}
+				if skips {
+					return false
+				}
+			}
 			for _, g := range gos {
 				if _, after := CanReach(sp, g, func(x ssa.Instruction) bool { return x == at }, PathQ{}); after {
 					return false
